@@ -72,6 +72,18 @@ FailAppend ==
        IN wr' = [pc |-> "f.newactive", k |-> wr.k, v |-> wr.v, old |-> active, retained |-> retained,
                  completes |-> retained > 0 /\ wr.ci = Len(wr.calls)]
     /\ UNCHANGED <<vars_but_wr, allowed>>
+\* the way a full device usually fails a write: write(2) number ci is performed SHORT (half of its bytes reach the
+\* file) and the retry of the rest fails.  When the call was a flush of the BufWriter the rest stays in the buffer and
+\* lands when the old writer is dropped - the record is then COMPLETE in the old file (unindexed) if this was its last
+\* call; the rest of a direct write (a piece of at least BufCap bytes) is lost
+FailAppendShort ==
+    /\ CanFail /\ Faulted /\ wr.pc = "append" /\ wr.calls[wr.ci] >= 2
+    /\ LET half == wr.calls[wr.ci] \div 2
+           retained == IF EFlush(wr.k, wr.v)[wr.ci] THEN wr.calls[wr.ci] - half ELSE 0
+       IN /\ data' = [data EXCEPT ![active] = TornWrite(@, half)]
+          /\ wr' = [pc |-> "f.newactive", k |-> wr.k, v |-> wr.v, old |-> active, retained |-> retained,
+                    completes |-> retained > 0 /\ wr.ci = Len(wr.calls)]
+    /\ UNCHANGED <<cfg, hint, dsync, hsync, keydir, stats, active, written, model, everIds, nops, ncrash, mghost, allowed>>
 FNewActive ==
     /\ wr.pc = "f.newactive"
     /\ CreateData(active + 1) /\ active' = active + 1 /\ written' = 0
@@ -191,7 +203,7 @@ FNext ==
     \/ ("reopen" \in Ops /\ Reopen /\ Quiet)
     \/ ((AppendStep \/ SyncStep \/ AccountStep \/ RollStep \/ MergeStep) /\ Quiet)
     \/ FPublish
-    \/ FailAppend \/ FNewActive \/ FDropFlush \/ FRet \/ FailSync \/ FailRoll
+    \/ FailAppend \/ FailAppendShort \/ FNewActive \/ FDropFlush \/ FRet \/ FailSync \/ FailRoll
     \/ FailMerge \/ FMergeUnlinkHint \/ FMergeNewActive \/ FailMergeNewActive \/ FailReopen
 FSpec == FInit /\ [][FNext]_fvars
 
